@@ -24,3 +24,4 @@ def rules(ctx):
     S.after_bound_rules(ctx)
     S.tree_root_update_rules(ctx)
     S.round5_rules(ctx)
+    S.builder_fill_rules(ctx)
